@@ -12,6 +12,8 @@ mod plan;
 mod report;
 mod rnd;
 mod rt;
+mod proxy;
+mod scen_link;
 mod scen_tcp;
 
 use std::time::Instant;
@@ -23,6 +25,8 @@ use report::Outcome;
 fn generate(prop: &str, seed: u64, thorough: bool) -> Option<Plan> {
     match prop {
         "C01" => Some(scen_tcp::gen_c01(seed, thorough)),
+        "C04" => Some(scen_link::gen_c04(seed, thorough)),
+        "C05" => Some(scen_link::gen_c05(seed, thorough)),
         _ => None,
     }
 }
@@ -30,6 +34,8 @@ fn generate(prop: &str, seed: u64, thorough: bool) -> Option<Plan> {
 fn execute(plan: &Plan) -> Outcome {
     match plan.scenario.as_str() {
         "tcp-system" => scen_tcp::execute_c01(plan),
+        "link-seg" => scen_link::execute_c04(plan),
+        "link-tamper" => scen_link::execute_c05(plan),
         other => {
             eprintln!("unknown scenario {other}");
             std::process::exit(2);
